@@ -27,7 +27,7 @@ func init() {
 			" R13 both compilers of a change are given the declaration table compileMeta returned." +
 			" R15 the node kept as the pattern is reached from the parsed source through File.Decls, FuncDecl.Body, BlockStmt.List and ExprStmt.X only; R16 the tree handed to the snapshot and to the changes is the first result of parser.ParseFile in this call (both pipelines)." +
 			" R17 where the section splitter searches for the end of a line by index, the not-found edge sets the offset to len(content)." +
-			" R18 the reflect.Value.Set in setValue is handed setValue's own parameter; R19 = C04-R3..R5.",
+			" R18 the reflect.Value.Set in setValue is handed setValue's own parameter; R19 = C04-R3..R5; R20 the list SliceDotsReplacer.Replace builds is nil, made there or its own earlier append, never a recorded run.",
 		Trusted:     commonTrusted,
 		Assumptions: commonAssumptions,
 	})
